@@ -124,11 +124,19 @@ func identShapes(t reflect.Type) []string {
 	case t == vmodel.NlvT:
 		return []string{"nlv1u", "nlv1t"}
 	case t == vmodel.TimeT:
-		return []string{"time-s"}
+		return []string{"time-s", "time-s|+1ns", "time-s|+300ms", "time-s|-200ms"}
 	case t == vmodel.DurT:
 		return []string{"dur-pos"}
 	}
 	return nil
+}
+
+// baseShape strips the "how the copy differs" suffix of an identity shape
+func baseShape(sh string) string {
+	if i := strings.IndexByte(sh, '|'); i >= 0 {
+		return sh[:i]
+	}
+	return sh
 }
 
 var allIdentCases = identCases()
@@ -141,7 +149,7 @@ func buildIdent(ic identCase, idx int) (x, y vocab.Item, desc string) {
 	v.FieldByName("Type").Set(reflect.ValueOf(vocab.ActivityVocabularyType(ic.Type)))
 	v.FieldByName("Name").Set(reflect.ValueOf(vocab.NaturalLanguageValues{{Ref: vocab.NilLangRef, Value: vocab.Content("same name")}}))
 	if ic.What == "field" {
-		gx.SetShape(v.Field(ic.Field.Index), ic.Field.Type, ic.Shape)
+		gx.SetShape(v.Field(ic.Field.Index), ic.Field.Type, baseShape(ic.Shape))
 	}
 	q := vmodel.DeepCopy(p)
 	w := reflect.ValueOf(q).Elem()
@@ -182,7 +190,12 @@ func setDifferent(g *vmodel.Gen, fv reflect.Value, t reflect.Type, shape string)
 		n[0] = vocab.LangRefValue{Ref: old[0].Ref, Value: vocab.Content(string(old[0].Value) + " (changed)")}
 		fv.Set(reflect.ValueOf(n))
 	case t == vmodel.TimeT:
-		fv.Set(reflect.ValueOf(fv.Interface().(time.Time).Add(time.Hour)))
+		d := time.Hour
+		if i := strings.IndexByte(shape, '|'); i >= 0 {
+			// a change inside the same second is a change too
+			d, _ = time.ParseDuration(shape[i+1:])
+		}
+		fv.Set(reflect.ValueOf(fv.Interface().(time.Time).Add(d)))
 	case t == vmodel.DurT:
 		fv.Set(reflect.ValueOf(time.Duration(fv.Int()) + time.Minute))
 	default:
@@ -190,7 +203,7 @@ func setDifferent(g *vmodel.Gen, fv reflect.Value, t reflect.Type, shape string)
 		for i := 0; i < 50; i++ {
 			g.IRI()
 		}
-		g.SetShape(fv, t, shape)
+		g.SetShape(fv, t, baseShape(shape))
 	}
 }
 
@@ -313,6 +326,21 @@ func init() {
 					v.FieldByName("Type").Set(reflect.ValueOf(vocab.ActivityVocabularyType(cc.Kind.SpecificType())))
 					g.SetShape(v.Field(cc.Ctx.Index), cc.Ctx.Type, cc.CtxShape)
 					c.Distinct(fmt.Sprintf("ctx|%s|%s=%s", cc.Kind.Name, cc.Ctx.Term, cc.CtxShape), true)
+					// the id first: the same value under another id is another thing, whatever else the two share
+					{
+						yp := vmodel.DeepCopy(p)
+						reflect.ValueOf(yp).Elem().FieldByName("ID").Set(reflect.ValueOf(vocab.IRI("https://example.com/ctx/2")))
+						x, y, same := p.(vocab.Item), yp.(vocab.Item), vmodel.DeepCopy(p).(vocab.Item)
+						desc := fmt.Sprintf("%s with %s=%s on both sides, differing in id", cc.Kind.Name, cc.Ctx.Term, cc.CtxShape)
+						c.Count("law:I", 1)
+						if eq0, ok := itemsEqual(c, "I baseline "+desc, x, same); ok && eq0 {
+							for _, ord := range [][2]vocab.Item{{x, y}, {y, x}} {
+								if eq, ok := itemsEqual(c, "I "+desc, ord[0], ord[1]); ok && eq {
+									c.Fail(fmt.Sprintf("eq|I|context|%s|%s:%s|id", cc.Kind.Fam, cc.Ctx.Term, shapeClass(cc.CtxShape)), "values whose ids differ compare equal: "+desc, map[string]any{"case": desc})
+								}
+							}
+						}
+					}
 					for _, df := range cc.Kind.Fields() {
 						shapes := identShapes(df.Type)
 						if df.Term == cc.Ctx.Term || coreExcluded[df.Term] || len(shapes) == 0 || !identTerm(cc.Kind, df.Term) {
